@@ -210,3 +210,128 @@ class AdjointCat(Contract):
             cl.append(("part%d_interval" % k, And(deep_eq(sl.slice.start, off), deep_eq(sl.slice.stop, off + ctx.szs[k]), deep_eq(sl.slice.step, 1), deep_eq(sl.dtype, total), deep_eq(sl.size, ctx.szs[k]))))
             off = off + ctx.szs[k]
         return cl
+
+
+class Arr:
+    """opaque array recording slicing / transposition"""
+
+    def __init__(self, tag, last=None, before_last=None):
+        self.tag = tag
+        self.shape = ("batch", before_last, last)
+
+    def __sym_getitem__(self, idx):
+        return Arr(("getitem", self.tag, idx))
+
+
+class BV:
+    def __init__(self, shape):
+        self.shape, self.assigned, self.done = shape, [], False
+
+    def __sym_setitem__(self, idx, value):
+        self.assigned.append((idx, value))
+
+    def as_tensor(self):
+        self.done = True
+        return Arr(("blockvector", id(self)))
+
+
+@register
+class AlignGaussian(Contract):
+    """gaussian.align_gaussian(new_inputs, old, expand): the real inputs are laid out by _compute_offsets (contract above) in
+    the NEW order: for every real input k of `old`, the block of prec_sqrt rows [new_off_k, new_off_k + n_k) is filled from
+    exactly the old block [old_off_k, old_off_k + n_k) (same length), real inputs that `old` lacks get no block (zero
+    fill), and when the offsets coincide nothing is copied; the batch (integer) inputs are re-aligned through align_tensor
+    only when they differ. structure bound: <= 3 real inputs in any two orders, optional extra new real input."""
+
+    props = ("C12", "C19")
+    file = "funsor/gaussian.py"
+    qualname = "align_gaussian"
+    total = True
+    mutants = (("block read at the new offset", "offset = old_offsets[k]", "offset = new_offset"), ("blocks keep the old length of another input", "num_elements = old.inputs[k].num_elements", "num_elements = new_inputs[k].num_elements if k in new_inputs else 0; num_elements = old.inputs[sorted(old.inputs)[0]].num_elements"))
+
+    def structures(self, tier):
+        for n in (1, 2, 3):
+            reals = "xyz"[:n]
+            for old in itertools.permutations(reals):
+                for new in itertools.permutations(reals):
+                    for extra in (False, True):
+                        yield "old=%s,new=%s%s" % ("".join(old), "".join(new), "+w" if extra else ""), (old, new, extra)
+
+    def build(self, p, st):
+        old_o, new_o, extra = st
+        numel = {}
+        for k in "xyzw":
+            v = p.fresh_int("n_" + k)
+            p.assume(v >= 1)
+            numel[k] = v
+        bdom = Dom(3, 1)
+        old_inputs = OrderedDict([("b", bdom)] + [(k, Dom("real", numel[k])) for k in old_o])
+        new_list = [("b", bdom)] + [(k, Dom("real", numel[k])) for k in new_o]
+        if extra:
+            new_list.insert(1, ("w", Dom("real", numel["w"])))
+        new_inputs = OrderedDict(new_list)
+
+        def offsets(inputs):
+            off, tot = OrderedDict(), 0
+            for k, d in inputs.items():
+                if d.dtype == "real":
+                    off[k] = tot
+                    tot = tot + d.num_elements
+            return off, tot
+
+        old_off, old_dim = offsets(old_inputs)
+
+        class Old:
+            inputs = old_inputs
+            white_vec = Arr("white_vec")
+            prec_sqrt = Arr("prec_sqrt", "rank", old_dim)
+
+        class GaussianCls:
+            @staticmethod
+            def __sym_instancecheck__(x):
+                return isinstance(x, Old)
+
+        bvs = []
+
+        def BlockVector(shape):
+            b = BV(shape)
+            bvs.append(b)
+            return b
+
+        class OpsNS:
+            @staticmethod
+            def transpose(a, i, j):
+                r = Arr(("T", a.tag))
+                r.shape = (a.shape[0], a.shape[2], a.shape[1]) if len(a.shape) == 3 else a.shape
+                return r
+
+        calls = []
+
+        def align_tensor(*a, **k):
+            calls.append(a)
+            return Arr("aligned")
+
+        ns = dict(OrderedDict=OrderedDict, Gaussian=GaussianCls, _compute_offsets=offsets, BlockVector=BlockVector, ops=OpsNS, align_tensor=align_tensor, Tensor=lambda d, i: ("Tensor", d), slice=slice)
+        return Ctx(args=(new_inputs, Old()), namespace=ns, st=st, numel=numel, bvs=bvs, old_off=old_off, new_off=offsets(new_inputs)[0], calls=calls)
+
+    def ensures(self, ctx, result):
+        old_o, new_o, extra = ctx.st
+        same = (not extra) and tuple(old_o) == tuple(new_o)
+        cl = [("batch_inputs_untouched_when_equal", ctx.calls == [])]
+        if same:
+            return cl + [("no_copy_when_offsets_coincide", ctx.bvs == [])]
+        if len(ctx.bvs) != 1 or not ctx.bvs[0].done:
+            return cl + [("one_block_vector_built", False)]
+        asg = ctx.bvs[0].assigned
+        ok = len(asg) == len(old_o)
+        conds = []
+        for (idx, val), k in zip(asg, [k for k in ctx.new_off if k in old_o]):
+            good = isinstance(idx, tuple) and idx[0] is Ellipsis and isinstance(idx[1], slice) and isinstance(val, Arr) and val.tag[0] == "getitem" and isinstance(val.tag[2], tuple) and isinstance(val.tag[2][1], slice)
+            if not good:
+                ok = False
+                break
+            ns_, os_ = idx[1], val.tag[2][1]
+            n = ctx.numel[k]
+            conds.append(And(deep_eq(ns_.start, ctx.new_off[k]), deep_eq(ns_.stop, ctx.new_off[k] + n), deep_eq(os_.start, ctx.old_off[k]), deep_eq(os_.stop, ctx.old_off[k] + n)))
+        cl.append(("each_old_block_moves_to_its_new_offset_with_its_own_length", And(*conds) if ok else False))
+        return cl
